@@ -407,7 +407,7 @@ def gen_gram(rng, tier):
             c = C03.gen_fourier(rng, 'quick')[0]
             c['cls'] = 'FourierOp'
             # the Toeplitz gram uses the exact non-uniform DFT kernel: compare at the accuracy of the default Kaiser-Bessel kernel
-            c.pop('kbwidth', None), c.pop('numpoints', None)
+            c.pop('kbwidth', None), c.pop('numpoints', None), c.pop('os', None)
             out.append(c)
     return out
 
